@@ -40,6 +40,7 @@ def run(c):
     obl = fnlib.Obligations(c, "fn", "QuorumApa", c.pick(one + neg[:1], each + neg), par=c.pick(2, 3))
     # ---- pattern R: the counter machine
     applied = 0
+    derived = {}
     reports = {}
     walks = 0
     sample = None
@@ -49,10 +50,18 @@ def run(c):
         c.log("TLC %s: %d distinct states, %d transitions, %d edges" % (cfg, res.distinct, res.generated, res.edges))
         c.guard("edges_" + cfg, res.edges)
         rep = vlib.replay_edges(c, "weightcounter", edges, walks=c.pick(300, 3000), wlen=c.pick(12, 24), clause="weight-counter")
+        # the same transitions on counters of DERIVED sets: a copy, a set rebuilt from the set's builder, a set decoded from its RLP encoding
+        for via in (("copy", "builder", "rlp") if (cfg.endswith("small") or not c.quick) else ("copy",)):
+            drep = vlib.replay_edges(c, "weightcounter-" + via, edges, walks=c.pick(50, 500), wlen=c.pick(12, 24), clause="weight-counter-derived-set")
+            derived[via] = derived.get(via, 0) + drep["applied"]
+            applied += drep["applied"]
+            walks += drep["walks"]
         reports[cfg] = {k: rep[k] for k in ("edges", "applied", "distinct_pre", "distinct_edges", "walks", "walk_steps", "ops", "mismatch_count")}
         applied += rep["applied"]
         walks += rep["walks"]
         sample = sample or rep.get("sample")
+    for via in ("copy", "builder", "rlp"):
+        c.guard("edges_on_counters_of_" + via, derived.get(via, 0))
     for op in ("count", "countbyidx", "hasquorum", "sum"):
         c.guard("op_" + op, sum(r["ops"].get(op, 0) for r in reports.values()))
     # ---- Quorum() and construction near the limit against TLC-evaluated vectors
@@ -87,12 +96,12 @@ def run(c):
     cov = dict(
         states=c.tlc_states, transitions=c.tlc_transitions,
         traces_validated_against_impl=walks + 1,
-        edges_replayed_on_impl=applied,
+        edges_replayed_on_impl=applied, edges_replayed_on_counters_of_derived_sets=derived,
         quorum_vectors=rq["counts"].get("totals", 0), construction_vectors=rb["vectors"],
         totals_swept_through_real_quorum=st["totals"], sweep_segments=st["segments"],
         exhaustive=True,
         rule="complete state graph of WeightCounter.tla (all weight vectors of 1..4 validators over 1..4, and of 1..3 validators over boundary "
-             "weights up to 2^31-1) with every transition replayed on pos.WeightCounter; Quorum() of every total 1..2^31-1 recorded from the real "
+             "weights up to 2^31-1) with every transition replayed on pos.WeightCounter of the built set and of its Copy(), Builder().Build() and RLP round trip; Quorum() of every total 1..2^31-1 recorded from the real "
              "code and validated by TLC (QuorumSweep.tla + Apalache lemma Periodic); TLC-evaluated Quorum values and weight-limit verdicts compared exactly",
         replay=reports, samples=(sample or []) + rq["samples"][:1] + rb["samples"][:1],
     )
